@@ -33,6 +33,9 @@ EXPECTED_HANDWRITTEN = {
     ("chia-protocol", "ProofOfSpace"), ("chia-protocol", "SubEpochSummary"), ("chia-protocol", "SubEpochData"),
     ("chia-protocol", "RewardChainBlock"), ("chia-protocol", "FullBlock"), ("chia-protocol", "UnfinishedBlock"),
 }
+# hand-written ToJsonDict / FromJsonDict impls (both directions) mirrored by Stream/Json.v
+EXPECTED_JSON_IMPLS = {("chia-bls", "SecretKey"), ("chia-bls", "GTElement"), ("chia-bls", "PublicKey"), ("chia-bls", "Signature"),
+                       ("chia-protocol", "Bytes"), ("chia-protocol", "BytesImpl<N>"), ("chia-protocol", "Program")}
 EXPECTED_TRAITS = {"$t", "Vec<T>", "String", "bool", "()", "Option<T>", "(T, U)", "(T, U, V)", "(T, U, V, W)", "[T; N]"}
 EXPECTED_PRIMS = ["u8", "i8", "u16", "i16", "u32", "i32", "u64", "i64", "u128", "i128"]
 OPT2_TYPES = ["RewardChainBlock", "SubEpochSummary", "SubEpochData"]
@@ -291,12 +294,15 @@ def module_path(crate, path, repo):
 def parse_items(repo):
     """returns (types: name -> record, aliases: name -> type text, handwritten: set of (crate, target))"""
     types, aliases, hand = {}, {}, set()
+    jimpl = {"ToJsonDict": set(), "FromJsonDict": set()}
     for crate in CRATES:
         for path in scan_crate(repo, crate):
             rel = os.path.relpath(path, repo)
             s = drop_test_modules(blank_literals(open(path).read()))
             for m in re.finditer(r"\bimpl\s*(<[^>{]*>)?\s*(?:chia_traits::)?Streamable\s+for\s+([^{]+?)\s*\{", s):
                 hand.add((crate, norm_ws(m.group(2))))
+            for m in re.finditer(r"\bimpl\s*(<[^>{]*>)?\s*(?:chia_traits::)?(ToJsonDict|FromJsonDict)\s+for\s+([^{]+?)\s*\{", s):
+                jimpl[m.group(2)].add((crate, norm_ws(m.group(3))))
             for m in re.finditer(r"(?m)^\s*pub(?:\([^)]*\))?\s+type\s+(\w+)\s*=\s*([^;]+);", s):
                 aliases[m.group(1)] = norm_ws(m.group(2))
             i = 0
@@ -367,6 +373,10 @@ def parse_items(repo):
             raise TieBroken("duplicate streamable type id %s" % uid)
         rec["uid"] = uid
         out[uid] = rec
+    for k, got in jimpl.items():
+        if got != EXPECTED_JSON_IMPLS:
+            raise TieBroken("set of hand-written `impl %s for` changed: unexpected %s, missing %s" %
+                            (k, sorted(got - EXPECTED_JSON_IMPLS), sorted(EXPECTED_JSON_IMPLS - got)))
     return out, aliases, hand
 
 
